@@ -37,7 +37,8 @@ CLAIM = dict(
           "defines exactly as the description does), C20_file_lines, and the refinement C20_in_place: for every cart, "
           "every directory content and every consistent file-system view, whenever the reference splice of "
           "Spec/SpliceSpec.v is defined the model's code text has exactly the reference lines (no host line merged "
-          "with an included one, with or without final newline) and fails when a file is missing; C20_model_holds "
+          "with an included one, with or without final newline) and fails when a file is missing; "
+          "C20_in_place_unterminated_last (the same for a cart whose last line has no newline); C20_model_holds "
           "(the monitor's predicate holds of the model). C20_glue_variant_refuted: with `yield line` (the code "
           "before the fix) the statement is false (vm_compute witness x=1 / a=bc=d); C20_tab_variant_refuted: so it is when "
           "tabs are selected on the lexer's chunks (a -->8 line inside a long string). Tie: regex sources + the way "
